@@ -356,7 +356,9 @@ pub fn encode_vector<B: KeyBuffer>(dimensions: &[f32], buf: &mut B) {
     buf.extend_from_slice(&(dimensions.len() as u32).to_be_bytes());
     for &dim in dimensions {
         let bits = dim.to_bits();
-        let encoded = if dim < 0.0 {
+        // the sign BIT decides (not `dim < 0.0`): -0.0 and negative NaNs have it set and must take the
+        // negative branch, otherwise -0.0 becomes 0x00000000 (below every negative) and decodes as NaN
+        let encoded = if bits & (1u32 << 31) != 0 {
             !bits
         } else {
             bits ^ (1u32 << 31)
@@ -416,7 +418,8 @@ pub fn encode_json<B: KeyBuffer>(json: &JsonValue, buf: &mut B) {
         JsonValue::Bool(true) => buf.push(type_prefix::JSON_TRUE),
         JsonValue::Number(n) => {
             buf.push(type_prefix::JSON_NUMBER);
-            if *n < 0.0 {
+            // sign bit, not `*n < 0.0`: see encode_vector
+            if n.to_bits() & (1u64 << 63) != 0 {
                 buf.extend_from_slice(&(!n.to_bits()).to_be_bytes());
             } else {
                 buf.extend_from_slice(&(n.to_bits() ^ (1u64 << 63)).to_be_bytes());
